@@ -121,6 +121,7 @@ DataMix ==
      Raw("string h\\x41\\n", StringBytes(<<104, 92, 120, 52, 49, 92, 110>>)),
      Raw("string " \o "\"q\" #", StringBytes(<<34, 113, 34, 32, 35>>)),
      \* non-ASCII text: more bytes than characters (1 and 3 extra), so a size counted in characters misplaces every later align
+     Raw("string ab  ", StringBytes(<<97, 98, 32, 32>>)),       \* trailing blanks belong to the text
      Raw("string \\xe9", StringBytes(<<92, 120, 101, 57>>)),
      Raw("string a\\xe9\\xe9\\xe9", StringBytes(<<97, 92, 120, 101, 57, 92, 120, 101, 57, 92, 120, 101, 57>>)),
      Align(2), Align(4), Align(8), Align(3) >> \o GapItems
